@@ -37,6 +37,8 @@ cfg_if::cfg_if! {
             let mut guard =
                 CACHE.lock().unwrap_or_else(|e| e.into_inner());
             let map = guard.get_or_insert_with(HashMap::new);
+            #[cfg(feature = "verif")]
+            crate::verif::sched_point("transcript.label_cache", label.len());
 
             if let Some(&cached) = map.get(label) {
                 return cached;
